@@ -309,6 +309,24 @@ pub fn generate(g: &mut Gen, thorough: bool) {
         ];
         emit(g, &res, "m:outer a=1", &Expect::Steps(vec![("helmert x=1".to_string(), false)]), "witness-shadowed-arg", true);
     }
+    // `key=$name` with `name` absent is an error for a parameter of every type, at top level and
+    // inside a macro body (an argument that is not given is not replaced by the operator's default)
+    {
+        let res = vec![
+            ("to:cart".to_string(), "cart ellps=$ellps_0 | helmert x=1 | cart inv ellps=$ellps_1".to_string()),
+            ("to:utm".to_string(), "utm zone=$zone ellps=$e".to_string()),
+            ("to:shift".to_string(), "helmert translation=$t convention=$c".to_string()),
+        ];
+        for def in [
+            "cart ellps=$nosuch", "helmert x=$nosuch", "helmert translation=$nosuch", "utm zone=$nosuch", "helmert convention=$nosuch x=1", "axisswap order=$nosuch",
+            "unitconvert xy_in=$nosuch", "adapt from=$nosuch", "addone | cart ellps=$nosuch", "to:cart ellps_0=intl", "to:cart ellps_1=intl", "to:cart", "to:cart ellps0=intl ellps_1=GRS80",
+            "to:utm zone=32", "to:utm e=intl", "to:shift t=1,2,3", "to:shift c=position_vector", "addone | to:cart ellps_0=intl | addone",
+        ] {
+            emit(g, &res, def, &Expect::Syntax, "witness-absent-argument", true);
+        }
+        emit(g, &res, "to:cart ellps_0=intl ellps_1=GRS80", &Expect::Steps(vec![("cart ellps=intl".to_string(), false), ("helmert x=1".to_string(), false), ("cart ellps=GRS80".to_string(), true)]), "witness-given-arguments", true);
+        emit(g, &res, "to:utm zone=32 e=intl", &Expect::Steps(vec![("utm zone=32 ellps=intl".to_string(), false)]), "witness-given-arguments", true);
+    }
     let n = if thorough { 25000 } else { 2200 };
     for _ in 0..n {
         let nm = 1 + g.rng.below(6);
